@@ -106,6 +106,19 @@ CHECKS = {
                      'exception class, stdout, return values, restored tree and resulting backend objects must agree',
                 note='one corrupted entry at a time; all prefix lengths only from selected deep states',
                 technique='explicit-state BFS with twin execution (differential oracle) and crash-state enumeration of cache entries'),
+    'C19': dict(cat='exploration', ref='2/C19', engine='E3',
+                text='the real main() driven through argv / environment / TOML file / --profile for every option x every subset of its '
+                     'sources x string and native TOML values x commands, for local, s3c, s3, b2 and a custom backend found through the '
+                     'namespace package (int/bool/str/float options, coercion-sensitive values); effective value and type against a '
+                     'five-line precedence function; mutually exclusive pairs rejected',
+                note='CLI/config modules re-imported per case; the command handler is replaced by a recorder that calls the real '
+                     '_instantiate_backend', technique='exhaustive configuration enumeration against a reference precedence function'),
+    'C20': dict(cat='model_checking', ref='2/C20', engine='E1',
+                text='k in {1,2,3} streams on one RateLimitedIO as controlled threads under a virtual wall clock (underlying latency 0 / '
+                     'half / exact / double the nominal time, exact and 10% oversleep), every schedule with <=1/2 deviations: all windows '
+                     'between transfer instants within L*T + allowance, data complete and in order; every operation sequence of length '
+                     '<=4 through the limiter and tqdm wrappers against BytesIO',
+                note='virtual time: only underlying I/O and sleep take time', technique='deviation-bounded schedule exploration with a virtual clock'),
 }
 NOT_YET = {}
 
@@ -140,13 +153,13 @@ m = {
         'add_only': True,
     },
     'engines': [
-        {'name': 'E1', 'path': 'mc/dsched.py + mc/explore.py', 'serves_properties': ['C09', 'C02', 'C03'],
+        {'name': 'E1', 'path': 'mc/dsched.py + mc/explore.py', 'serves_properties': ['C09', 'C02', 'C03', 'C14', 'C20'],
          'kind_free_text': 'deterministic scheduler for real threads + virtual asyncio loop; deviation-bounded stateless explorer'},
         {'name': 'E2', 'path': 'mc/hist.py', 'serves_properties': ['C02', 'C06', 'C07', 'C08', 'C15', 'C18'],
          'kind_free_text': 'explicit-state BFS over command histories; transitions run the real commands with fresh Repository objects'},
         {'name': 'E3+E1', 'path': 'checks/C14.py', 'serves_properties': ['C14'], 'kind_free_text': 'product enumeration + completion-order exploration'},
         {'name': 'E2+E1', 'path': 'mc/hist.py + mc/explore.py', 'serves_properties': ['C02'], 'kind_free_text': 'both'},
-        {'name': 'E3', 'path': 'mc/common.py (pmap) + per-check menus', 'serves_properties': ['C01', 'C04', 'C05', 'C10', 'C11', 'C14', 'C17'],
+        {'name': 'E3', 'path': 'mc/common.py (pmap) + per-check menus', 'serves_properties': ['C01', 'C04', 'C05', 'C10', 'C11', 'C14', 'C17', 'C19'],
          'kind_free_text': 'complete product enumeration of small menus, sharded over 16 processes'},
     ],
     'checks': checks,
